@@ -458,6 +458,92 @@ pub fn adapt_case(r: &mut Rng, server_mode: bool, plan: u8, steps: usize) -> Str
     format!("KAdapt {} {} [{}]", boolean(server_mode), addr_coq(&own), rows.join("; "))
 }
 
+/// C15 across a re-key: a client is handed a token by a server-mode node at a public address; then the node's own lookup
+/// ends with votes for that address, its self ping comes back and it takes the BEP42-valid id; seconds later the client
+/// writes with the token: a token issued less than five minutes ago is valid, whatever happened to the node's id
+pub fn token_rekey_case(r: &mut Rng, rekey: bool) -> String {
+    let n = 4usize;
+    let mut s = Scn::new(r, n, true, Default::default());
+    let ip = std::net::Ipv4Addr::new(*r.pick(&[23u8, 45, 80, 150, 203]), r.range(1, 250) as u8, r.range(1, 250) as u8, r.range(2, 250) as u8);
+    simclock::map_public(s.node.addr.port(), ip);
+    s.node.addr = SocketAddrV4::new(ip, s.node.addr.port());
+    let own = s.node.addr;
+    let id_before = *s.node.actor.info().id();
+    let client = Peer::new(peer_id(210, r));
+    let ih = Id::random();
+    let ask = MessageType::Request(RequestSpecific { requester_id: Id::from(client.id), request_type: RequestTypeSpecific::GetPeers(GetPeersRequestArguments { info_hash: ih }) });
+    client.send(own, 7_000_001, ask, false, None);
+    for _ in 0..3 {
+        s.step(&mut |s, inc| s.honest(inc));
+    }
+    let mut token: Option<Vec<u8>> = None;
+    for (raw, _) in client.drain() {
+        if let Ok(m) = decode(&raw) {
+            if let MessageType::Response(ResponseSpecific::NoValues(a)) = &m.message_type {
+                token = Some(a.token.to_vec());
+            }
+        }
+    }
+    let token = match token {
+        Some(t) => t,
+        None => return "KTokenRekey false false false".into(),
+    };
+    if rekey {
+        // the node's own lookup: every responder reports the node's public address
+        let (tx, _rx) = flume::unbounded();
+        s.node.actor.verif_get(crate::c20::request_of(0, Id::random()), ResponseSender::ClosestNodes(tx));
+        for _ in 0..200 {
+            s.step(&mut |s, inc| {
+                let req = match as_request(&inc.msg) {
+                    Some(q) => q,
+                    None => return Reply::Silent,
+                };
+                if !matches!(req.request_type, RequestTypeSpecific::FindNode(_)) {
+                    return s.honest(inc);
+                }
+                match honest_reply(&s.peers[inc.peer], inc, &s.all_nodes()) {
+                    Some(mt) => Reply::MsgIp(mt, own),
+                    None => Reply::Silent,
+                }
+            });
+            if s.snap().iterative_queries == 0 {
+                break;
+            }
+        }
+        for _ in 0..4 {
+            s.step(&mut |s, inc| s.honest(inc));
+        }
+    }
+    s.advance(r.range(1000, 60_000));
+    let rekeyed = *s.node.actor.info().id() != id_before;
+    let put = MessageType::Request(RequestSpecific {
+        requester_id: Id::from(client.id),
+        request_type: RequestTypeSpecific::Put(PutRequest { token: token.into(), put_request_type: PutRequestSpecific::AnnouncePeer(AnnouncePeerRequestArguments { info_hash: ih, port: 6881, implied_port: None }) }),
+    });
+    client.send(own, 7_000_002, put, false, None);
+    for _ in 0..3 {
+        s.step(&mut |s, inc| s.honest(inc));
+    }
+    let mut accepted = false;
+    for (raw, _) in client.drain() {
+        if let Ok(m) = decode(&raw) {
+            if m.transaction_id == 7_000_002 && matches!(m.message_type, MessageType::Response(_)) {
+                accepted = true;
+            }
+        }
+    }
+    format!("KTokenRekey true {} {}", boolean(rekeyed), boolean(accepted))
+}
+
+pub fn generate_rekey(seed: u64, scale: usize) -> Cases {
+    let mut r = Rng::new(seed ^ 0xC15E);
+    let mut o = Cases::new();
+    for k in 0..(4 * scale.max(1)) {
+        o.push(if k % 4 == 3 { "token_without_rekey" } else { "token_across_rekey" }, token_rekey_case(&mut r, k % 4 != 3));
+    }
+    o
+}
+
 pub fn generate(seed: u64, scale: usize) -> Cases {
     let mut r = Rng::new(seed ^ 0xC18);
     let mut o = Cases::new();
